@@ -188,3 +188,7 @@ func Run(harnesses map[string]func()) {
 	fmt.Println("VERIF-PASS")
 	os.Exit(0)
 }
+
+// IntByte is Byte, but the engine's solver variable is a mathematical integer in [0,255]
+// (keeps real/integer arithmetic harnesses out of the bit-vector theory).
+func IntByte(name string) byte { return byte(val(name, 8)) }
